@@ -141,8 +141,9 @@ pub fn compact(cells: &[u64]) -> Result<Vec<u64>, String> {
 
                     // Check that all expected siblings are present with correct stride
                     for j in 1..expected_children {
-                        let expected_cell = cell + (j as u64) * stride;
-                        if current_cells[i + j] != expected_cell {
+                        // Malformed indices near the top of the range have no siblings to add up to
+                        let expected_cell = cell.checked_add((j as u64) * stride);
+                        if Some(current_cells[i + j]) != expected_cell {
                             has_all_siblings = false;
                             break;
                         }
